@@ -206,7 +206,7 @@ impl<'a, I: Iterator<Item = B> + Clone, B: Borrow<Item<'a>>> DelayedFormat<I> {
             (Timestamp, Some(d), Some(t)) => {
                 let offset = self.off.as_ref().map(|(_, o)| i64::from(o.local_minus_utc()));
                 let timestamp = d.and_time(t).and_utc().timestamp() - offset.unwrap_or(0);
-                write_n(w, 9, timestamp, pad, false)
+                write_n(w, 1, timestamp, pad, false)
             }
             (Internal(_), _, _) => Ok(()), // for future expansion
             _ => Err(fmt::Error),          // insufficient arguments for given format
